@@ -184,12 +184,14 @@ inductive Caller where
   | remote (p : Nat)
   deriving DecidableEq, Repr
 
-/-- does a call from `caller` to `ep` pass the authorization step? (`self`: in-process, no check) -/
-def passes (cl : Closure) (pol : Policy) (sh : ConsensusShape) (raw : List (Option Nat)) (ops : List TOp)
+/-- does a call from `caller` to `ep` pass the authorization step? `self`: in-process, no check.
+    `guarded`: the server was created with the closure installed (`rpc.WithAuthorizeFunc`);
+    a server without it lets every remote call through. -/
+def passes (guarded : Bool) (cl : Closure) (pol : Policy) (sh : ConsensusShape) (raw : List (Option Nat)) (ops : List TOp)
     (self : Nat) (caller : Caller) (ep : String) : Bool :=
   match caller with
   | .self => true
-  | .remote p => authorizeWith cl pol (trustedAfter sh raw ops self p) ep
+  | .remote p => !guarded || authorizeWith cl pol (trustedAfter sh raw ops self p) ep
 
 /-! ## pubsub delivery of pinset updates (CRDT) -/
 
